@@ -11,6 +11,11 @@ import sys, os, json, shutil, subprocess, tempfile, argparse, glob, concurrent.f
 ENV=dict(os.environ, GOFLAGS='-mod=mod', GOPROXY='off', GOSUMDB='off', GOTOOLCHAIN='local')
 ENV.pop('GOWORK',None)
 PROPS=['C%02d'%i for i in range(1,21)]
+PROPMODS={}
+for _l in open('/verif/properties.jsonl'):
+    _d=json.loads(_l); PROPMODS[_d['id']]=set(f.split('/')[0] for f in _d['anchors']['files'])
+PROPMODS['C12']|={'ds','core','runtime','web'}; PROPMODS['C18']|={'ds','runtime'}; PROPMODS['C01']|={'ds','kvstore'}; PROPMODS['C03']|={'kvstore'}; PROPMODS['C14']|={'ds'}; PROPMODS['C15']|={'ds'}; PROPMODS['C16']|={'ds'}
+BENIGN=False
 def run(d, allprops):
     meta=json.load(open(os.path.join(d,'meta.json')))
     name=os.path.basename(d)
@@ -23,6 +28,9 @@ def run(d, allprops):
         if p.returncode!=0: return name,meta,'BROKEN','patch does not apply: '+p.stdout[-300:]+p.stderr[-300:],[]
         res=[]
         props=PROPS if allprops else [meta['property']]
+        if BENIGN:
+            touched=set(l.split()[1].split('/')[1] for l in open(os.path.join(d,'patch.diff')) if l.startswith('+++ b/'))
+            props=[q for q in PROPS if q==meta['property'] or PROPMODS[q]&touched]
         for prop in props:
             e=dict(ENV, HIVECHECK_REPO=repo, HIVECHECK_VERIF=ver, HIVECHECK_WORK=os.path.join(t,'work-'+prop))
             q=subprocess.run(['/verif/.bin/hivecheck','-property',prop,'-tier','quick'],env=e,capture_output=True,text=True)
@@ -32,18 +40,25 @@ def run(d, allprops):
             elif q.returncode==1: res.append((prop,'caught',failed))
             else: res.append((prop,'silent',[]))
         own=[r for r in res if r[0]==meta['property']][0]
+        if BENIGN:
+            sts=set(r[1] for r in res)
+            return name,meta,('ERROR' if 'ERROR' in sts else 'CAUGHT' if 'caught' in sts else 'MISSED'),'',res
         return name,meta,('CAUGHT' if own[1]=='caught' else 'MISSED' if own[1]=='silent' else 'ERROR'),'',res
     finally:
         shutil.rmtree(t,ignore_errors=True)
-ap=argparse.ArgumentParser(); ap.add_argument('-k',default=''); ap.add_argument('-j',type=int,default=4); ap.add_argument('--all-props',action='store_true')
+ap=argparse.ArgumentParser(); ap.add_argument('-k',default=''); ap.add_argument('-j',type=int,default=4); ap.add_argument('--all-props',action='store_true'); ap.add_argument('--benign',action='store_true',help='run the behaviour-preserving corpus /verif/benign: every check must stay silent')
 a=ap.parse_args()
-dirs=sorted(d for d in glob.glob('/verif/seeded/*') if os.path.exists(os.path.join(d,'patch.diff')) and a.k in d)
+BENIGN=a.benign
+dirs=sorted(d for d in glob.glob('/verif/benign/*' if a.benign else '/verif/seeded/*') if os.path.exists(os.path.join(d,'patch.diff')) and a.k in d)
 missed=0
 with concurrent.futures.ThreadPoolExecutor(a.j) as ex:
     for name,meta,st,info,res in ex.map(lambda d: run(d,a.all_props), dirs):
-        print('%-34s %-7s %s %s'%(name,st,meta.get('title','')[:90],info))
+        print('%-34s %-7s %s %s'%(name,({'MISSED':'silent','CAUGHT':'ALARM'}.get(st,st) if a.benign else st),meta.get('title','')[:90],info))
         for prop,s,failed in res:
             if s!='silent':
                 for l in failed[:6]: print('      [%s] %s'%(prop,l[:230]))
-        if st!='CAUGHT': missed+=1
-print('%d seeded changes, %d not caught by their own property'%(len(dirs),missed))
+        if a.benign:
+            if st!='MISSED': missed+=1
+        elif st!='CAUGHT': missed+=1
+if a.benign: print('%d behaviour-preserving changes, %d FALSE ALARMS (or errors)'%(len(dirs),missed))
+else: print('%d seeded changes, %d not caught by their own property'%(len(dirs),missed))
